@@ -4,22 +4,12 @@ Property theorems only; for every authenticator configuration, user-validation c
 store (kind, content, fault schedule), random draws and request.  Model: Model/Authenticator.lean
 (tied to the code by the exhaustive correspondence stream over the finite product of the statement).
 -/
-import PasskeyVerif.Lemmas.Auth
+import PasskeyVerif.Lemmas.AuthFlags
 namespace PasskeyVerif.C04
 open PasskeyVerif.Auth PasskeyVerif.Auth.Spec PasskeyVerif.Generated
 open PasskeyVerif.AuthData (Bytes AuthData)
 
 def envOf (cfg : Cfg) (u : UvCfg) (s : Store) : Env := ⟨cfg, s.kind, u, storeObs s, s.faults.any Option.isSome⟩
-
-theorem make_flag_bits (p v : Bool) :
-    ((((Flags.DEFAULT ||| flagsOf p v) ||| Flags.AT) ||| Flags.AT) &&& AuthData.Spec.bitUP != 0) = p
-    ∧ ((((Flags.DEFAULT ||| flagsOf p v) ||| Flags.AT) ||| Flags.AT) &&& AuthData.Spec.bitUV != 0) = v := by
-  cases p <;> cases v <;> decide
-
-theorem get_flag_bits (p v : Bool) :
-    (((Flags.DEFAULT ||| flagsOf p v)) &&& AuthData.Spec.bitUP != 0) = p
-    ∧ (((Flags.DEFAULT ||| flagsOf p v)) &&& AuthData.Spec.bitUV != 0) = v := by
-  cases p <;> cases v <;> decide
 
 /-- **Registration: consent before effect.** A credential is saved, or a result returned, only after the
 user-validation step was asked with the requested options and reported presence (and verification when
